@@ -142,6 +142,21 @@ def check_state(kind, args, evs, cap, X, d, sub, stats):
         case.update(extra)
         sub.violation(case, f"{kind}{args} after {len(evs)} events: {msg}")
 
+    # file names as pathlib.Path (documented: str | Path) must behave like str
+    from pathlib import Path as _Path
+
+    if stats["states"] % 5 == 0:
+        pp = _Path(d) / "p.npz"
+        try:
+            X.save(pp)
+            Lp = loaders(kind)[0][1](pp)
+            stats["loads"] += 1
+            if observe(Lp, kind, uni) != ref:
+                fail("save(Path)/load(Path) differs from the saved sketch", {"what": "path"})
+            del Lp
+        except Exception as e:
+            fail(f"save/load with a pathlib.Path raised {type(e).__name__}: {e}", {"what": "path"})
+        restore(X, cap, SKIP)
     for lname, loader in loaders(kind):
         for shared in (False, True):
             stats["loads"] += 1
